@@ -10,3 +10,4 @@ pub mod ops2;
 pub mod proj;
 pub mod pure;
 pub mod replay;
+pub mod txn;
